@@ -22,8 +22,18 @@ pub fn nontrivial(ast: &Ast, table_const: bool) -> bool {
 
 /// Judge one text. Returns false when the case was not judged (skipped).
 pub fn check_text(st: &mut Stats, text: &str, origin: &str) -> bool {
+    check_text_ordered(st, text, origin, &[])
+}
+
+/// `ordering`: variable ordering handed to `ParsedFormula::new` (name, id) — ids need not be
+/// dense, need not start at 0 and need not cover the formula's names; empty = none.
+pub fn check_text_ordered(st: &mut Stats, text: &str, origin: &str, ordering: &[(String, usize)]) -> bool {
     st.evals += 1;
-    let case = || json!({"text": text, "origin": origin});
+    let case = || json!({"text": text, "origin": origin, "ordering": ordering});
+    let syms: Option<Vec<rsbdd::NamedSymbol>> = if ordering.is_empty() { None } else { Some(ordering.iter().map(|(n, id)| rsbdd::NamedSymbol { name: std::rc::Rc::new(n.clone()), id: *id }).collect()) };
+    if syms.is_some() {
+        st.bump("evaluated_under_an_api_ordering");
+    }
     let ast = match refsyn::parse_text(text) {
         Ok(a) => a,
         Err(_) => {
@@ -54,7 +64,7 @@ pub fn check_text(st: &mut Stats, text: &str, origin: &str) -> bool {
         Err(EvalError::UnknownName(_)) => unreachable!(),
     };
     let fp_cap = sem.fp_iters * 4 + 64;
-    match engine_eval(text.as_bytes(), None, STEP_CAP, fp_cap) {
+    match engine_eval(text.as_bytes(), syms, STEP_CAP, fp_cap) {
         EngineOut::Rejected(e) => {
             st.violate("c01.accepts-sentences", "C01:rejects-well-formed".into(), format!("well-formed formula rejected: `{}`\n error: {}\n reference tree: {:?}", text, e, ast), case());
         }
@@ -149,7 +159,7 @@ fn random_job(ctx: &Ctx, job: usize, iters: u64, max_names: usize, depth: u32) -
     let mut rng = Rng::stream(ctx.seed, "C01.random", job as u64);
     for it in 0..iters {
         let fancy_names = rng.chance(1, 4);
-        let pool: &[&str] = if fancy_names { &gen::FANCY_NAMES } else { &gen::PLAIN_NAMES };
+        let pool: &[&str] = if fancy_names { &gen::FANCY_NAMES } else if rng.chance(1, 10) { &gen::MARK_NAMES } else { &gen::PLAIN_NAMES };
         let k = 1 + rng.usize(max_names.min(pool.len()));
         let mut names: Vec<&str> = pool.to_vec();
         rng.shuffle(&mut names);
@@ -177,7 +187,20 @@ fn random_job(ctx: &Ctx, job: usize, iters: u64, max_names: usize, depth: u32) -
             text = if rng.chance(1, 2) { format!("\"{}\"\n{}", "pad ".repeat(big / 4), text) } else { format!("{}{}\"tail\"", text, "\n ".repeat(big / 2)) };
             st.bump("large_texts");
         }
-        check_text(&mut st, &text, "random");
+        if it % 6 == 5 {
+            // an ordering through the API: a shuffled subset of the names (and a stranger) with
+            // increasing but sparse ids that need not start at 0
+            let mut ord_names: Vec<String> = names.iter().filter(|_| rng.chance(2, 3)).map(|s| s.to_string()).collect();
+            if rng.chance(1, 3) {
+                ord_names.push("stranger".into());
+            }
+            rng.shuffle(&mut ord_names);
+            let mut id = rng.usize(3);
+            let ordering: Vec<(String, usize)> = ord_names.into_iter().map(|n| { let cur = id; id += 1 + rng.usize(3) * rng.usize(2); (n, cur) }).collect();
+            check_text_ordered(&mut st, &text, "random+ordering", &ordering);
+        } else {
+            check_text(&mut st, &text, "random");
+        }
     }
     st
 }
@@ -252,7 +275,8 @@ pub fn run(ctx: &Ctx) -> (Stats, Spec) {
 
 pub fn replay(_ctx: &Ctx, _monitor: &str, case: &Value, st: &mut Stats) {
     if let Some(t) = case.get("text").and_then(|t| t.as_str()) {
-        check_text(st, t, "replay");
+        let ordering: Vec<(String, usize)> = case.get("ordering").and_then(|o| o.as_array()).map(|a| a.iter().filter_map(|e| Some((e.get(0)?.as_str()?.to_string(), e.get(1)?.as_u64()? as usize))).collect()).unwrap_or_default();
+        check_text_ordered(st, t, "replay", &ordering);
     }
 }
 
